@@ -161,8 +161,12 @@ C_ReqHop(x, b) == \A h \in x.c.hdr :
 C_Host(x, b) == b.host = (IF x.cfg.addrIsName /\ ~x.cfg.keepHost THEN b.via ELSE x.c.host)
 
 C_Status(x)  == x.cr.status = x.br.status
+(* (304 Not Modified: RFC 7232 4.1 tells a sender not to generate representation metadata in a 304, and
+   Go's net/http server removes Content-Type and Content-Length from every 304 it sends; the two are not
+   demanded of a 304) *)
+Skip304(x) == IF x.br.status = 304 THEN {"content-type"} ELSE {}
 C_RespE2E(x) == \A h \in x.br.hdr :
-    h.n \notin (HopFixed \cup x.br.conn \cup RespSkip \cup x.cfg.rsaTouched)
+    h.n \notin (HopFixed \cup x.br.conn \cup RespSkip \cup x.cfg.rsaTouched \cup Skip304(x))
         => \E g \in x.cr.hdr : g.n = h.n /\ IsSubseq(h.v, g.v)
 
 (* body content bit-exact once the Content-Encoding the response is labelled with is undone
@@ -171,6 +175,18 @@ C_Content(x) ==
     \/ x.br.nobody
     \/ LET exp == IF x.cfg.rsaReplaces THEN x.cfg.rsaBody ELSE x.br.body.dec IN
        x.cr.body.decok /\ x.cr.body.dec = exp
+
+(* Content-Length is an end-to-end header too.  For a response WITH a body it is judged through the
+   framing clause (the proxy may re-frame the body; what it declares must be what it sends).  For a
+   bodiless response (the answer to HEAD) it frames nothing: it is the backend's statement about the
+   representation and has to arrive like every other end-to-end header - unless the response is a 304 (see
+   C_RespE2E) or the proxy was configured
+   to send another representation: a ResponseAdaptor replaced the body, or the content coding the client
+   is told differs from the backend's (the proxy's compression / an adaptor's compress or decompress
+   applied; the length of the recoded representation is the proxy's business). *)
+C_RespLen(x) ==
+    (x.br.nobody /\ x.br.status # 304 /\ x.br.declared >= 0 /\ ~x.cfg.rsaReplaces /\ x.cr.body.label = x.br.body.label)
+        => x.cr.declared = x.br.declared
 
 (* well-framed: the message is complete, a declared Content-Length equals the bytes that follow,
    nothing but the next response (or EOF) follows, bodiless responses have no body *)
@@ -206,7 +222,8 @@ RespClauses(x) ==
     IF x.br.short THEN (IF C_Truncated(x) THEN {"truncated"} ELSE {})
     ELSE (IF C_Framed(x) THEN {} ELSE {"framed"}) \cup
          (IF ~C_Status(x) THEN {"status"}
-          ELSE (IF C_RespE2E(x) THEN {} ELSE {"respe2e"}) \cup (IF C_Content(x) THEN {} ELSE {"content"}))
+          ELSE (IF C_RespE2E(x) THEN {} ELSE {"respe2e"}) \cup (IF C_RespLen(x) THEN {} ELSE {"resplen"})
+               \cup (IF C_Content(x) THEN {} ELSE {"content"}))
 
 (* the clauses of C03 that exchange x violates *)
 Violated(x) == IF ~C_Reach(x) THEN {"reach"} \cup (IF x.br.short \/ C_Framed(x) THEN {} ELSE {"framed"})
@@ -297,10 +314,23 @@ ReqScn == { s \in [addr : AddrKinds, keepHost : BOOLEAN,
 RespK == 3
 RespScn == { s \in [comp : {"off", "low", "high"}, rsa : AdaptorKinds, rsahdr : BOOLEAN,
                     respMode : {"buf", "stream"}, ae : {"absent", "gzip", "identity"}, head : BOOLEAN,
-                    status : {200, 404, 503}, bframing : {"cl", "chunked", "close"}, benc : {"identity", "gzip"},
+                    status : {200, 304, 404, 503}, bframing : {"cl", "chunked", "close"}, benc : {"identity", "gzip"},
                     bsize : {0, 10, 100}, gzd : {-3, 7}, cache : BOOLEAN, short : BOOLEAN] :
-             s.short => (s.bframing = "cl" /\ s.bsize > 0 /\ ~s.head /\ ~s.cache) }
+             /\ s.short => (s.bframing = "cl" /\ s.bsize > 0 /\ ~s.head /\ ~s.cache /\ s.status # 304)
+             \* 304 (Not Modified): a response that has no body whatever the method; the headers may still describe the
+             \* representation (Content-Length, Content-Encoding); bsize is only the length it declares
+             /\ s.status = 304 => s.bsize = 10 }
+NoBody(s) == s.head \/ s.status = 304       \* the backend's answer is bodiless
 Reqs(s) == IF s.cache THEN RespK ELSE 1
+
+(* concurrency: a response scenario may also be run as a warm-up exchange followed by `par` identical
+   requests that are in flight AT THE SAME TIME on the same proxy instance (module ProxyMsgPar; every one
+   of them is an exchange of its own and is judged by the contract like any other).  Backend responses
+   that break off are explored sequentially only. *)
+ParDegrees == <<2, 3, 4>>
+ParScn == {s \in RespScn : ~s.short}
+ParScnQuick == {s \in ParScn : s.gzd = 7 /\ s.status = 200 /\ ~s.rsahdr /\ s.bsize = 100 /\ s.bframing # "close"}
+ParScnFull  == {s \in ParScn : s.gzd = 7 /\ s.status = 200}
 
 DefaultReqScn == [addr |-> "ip", keepHost |-> FALSE, ra |-> "none", rahdr |-> FALSE, reqMode |-> "buf", path |-> 1,
                   query |-> 1, hshape |-> "min", rbody |-> "none", renc |-> "identity", fails |-> 0]
@@ -313,8 +343,19 @@ DefaultRespScn == [comp |-> "off", rsa |-> "none", rsahdr |-> FALSE, respMode |-
    status class only with the other response dimensions at their default *)
 ReqScnQuick == {s \in ReqScn : (s.path = 1 /\ s.query = 1)
                                \/ [s EXCEPT !.path = 1, !.query = 1] = DefaultReqScn}
-RespScnQuick == {s \in RespScn : s.gzd = 7 /\ (s.status = 200 \/ [s EXCEPT !.status = 200] = DefaultRespScn)}
+RespScnQuick == {s \in RespScn : s.gzd = 7 /\ (s.status = 200 \/ [s EXCEPT !.status = 200] = DefaultRespScn
+                                               \/ (s.status = 304 /\ ~s.rsahdr /\ ~s.cache))}
 RespScnGenQuick == {s \in RespScn : s.gzd = 7}
+
+(* the media type a message is labelled with (Content-Type).  No clause of C03 or C07 mentions it: the
+   contract is the same for every value, and the stage operators never look at it.  It is a dimension of
+   the scenario space all the same - in ProxyMsgLimit every wire carries one, for ProxyMsg the generator
+   hands the classes to the driver, which labels the backend's response (and the client's request body)
+   of every case with one of them - because a proxy can key behaviour on it (server-sent events, gRPC and
+   multipart bodies are the media types proxies commonly treat specially).  The harness maps a class to a
+   concrete header value; "none": no Content-Type header at all. *)
+CTypeClasses == {"none", "octet", "text", "json", "sse", "grpc", "multipart"}
+CTypeSeq == <<"none", "octet", "text", "json", "sse", "grpc", "multipart">>
 
 MinLength(comp) == IF comp = "low" THEN 5 ELSE 50
 ClientHost == "client.example:8080"
@@ -394,18 +435,21 @@ BackendResp(s) ==
      touched |-> FALSE,      \* the ResponseAdaptor's header operations were applied
      panicked |-> FALSE]     \* the handler panicked after the response was set: net/http aborts the connection
 
-BRAbs(r, s) == [status |-> r.status, hdr |-> RespHdrs, conn |-> {}, nobody |-> s.head, short |-> s.short,
+BRAbs(r, s) == [status |-> r.status, hdr |-> RespHdrs, conn |-> {}, nobody |-> NoBody(s), short |-> s.short,
+                declared |-> IF s.bframing = "cl" THEN BLen(BackendFull(s)) ELSE -1,     \* the Content-Length header it sends
                 body |-> Abs(BackendFull(s), r.label)]
 
 (* http.Transport.  It asked for gzip itself iff the request it was given has no Accept-Encoding (and
    is not HEAD); only then it undoes a gzip label (lazily: the body becomes a gunzip reader, whatever
    the bytes turn out to be), drops Content-Length/-Encoding and reports ContentLength -1.  A response
-   to HEAD has no body but ContentLength = the header's value. *)
+   to HEAD has no body but ContentLength = the header's value; a 304 has no body and ContentLength 0
+   (the Content-Length header stays in the header map in both cases); a bodiless response is never
+   gunzipped. *)
 S_Transport(r, s) ==
-    LET r1 == IF s.head THEN [r EXCEPT !.payload = EmptyP] ELSE r IN
-    IF s.ae = "absent" /\ ~s.head /\ r.label = "gzip" /\ r.payload.layers > 0
+    LET r1 == IF NoBody(s) THEN [r EXCEPT !.payload = EmptyP] ELSE r IN
+    IF s.ae = "absent" /\ ~NoBody(s) /\ r.label = "gzip" /\ r.payload.layers > 0
     THEN [r1 EXCEPT !.payload = Gunz(@), !.label = "", !.clhdr = -1, !.gocl = -1]
-    ELSE [r1 EXCEPT !.gocl = r.clhdr]
+    ELSE [r1 EXCEPT !.gocl = IF s.status = 304 /\ ~s.head THEN 0 ELSE r.clhdr]
 
 (* compression.compress *)
 S_Compress(r, s, Fixed) ==
@@ -455,18 +499,21 @@ S_RespAdaptor(r, s, Fixed) ==
 
 (* mux write-out + net/http server: headers copied, WriteHeader, io.Copy.  With a declared
    Content-Length d the server sends at most d bytes and closes the connection when fewer were
-   written; without one it frames the body itself.  HEAD: no body is sent.  A body that ends with an
+   written; without one it frames the body itself.  HEAD, 304: no body is sent (net/http drops what the
+   handler writes, which is not a failure).  A body that ends with an
    error makes io.Copy fail: the pinned code ignores it and returns, so net/http terminates a chunked
    body properly ("ABORT" repaired: the handler aborts the connection instead). *)
 S_Write(r, s, Fixed) ==
     LET n == BLen(r.payload)
         d == r.clhdr
-        sent == IF s.head THEN EmptyP ELSE IF d >= 0 /\ n > d THEN [r.payload EXCEPT !.trunc = d] ELSE r.payload
+        nb == s.head \/ r.status = 304
+        sent == IF nb THEN EmptyP ELSE IF d >= 0 /\ n > d THEN [r.payload EXCEPT !.trunc = d] ELSE r.payload
     IN [status |-> r.status, hdr |-> IF ~r.kept THEN {} ELSE IF r.touched THEN RespHdrsTouched ELSE RespHdrs,
         body |-> Abs(sent, r.label),
-        framing |-> IF s.head THEN "none" ELSE IF d >= 0 THEN "cl" ELSE "auto",
-        declared |-> d, got |-> BLen(sent),
-        complete |-> ~r.panicked /\ (s.head \/ d < 0 \/ n >= d) /\ ~(~s.head /\ r.payload.bad /\ "ABORT" \in Fixed),
+        framing |-> IF nb THEN "none" ELSE IF d >= 0 THEN "cl" ELSE "auto",
+        declared |-> IF r.status = 304 THEN -1 ELSE d,      \* (net/http removes Content-Length from a 304)
+        got |-> BLen(sent),
+        complete |-> ~r.panicked /\ (nb \/ d < 0 \/ n >= d) /\ ~(~nb /\ r.payload.bad /\ "ABORT" \in Fixed),
         after |-> "ok"]
 
 (* ---- the pool's memory cache ---- *)
@@ -577,12 +624,16 @@ LimSizes(i, o) == IF EffHi(i, o, LimD) < 0 THEN {0, 1, LimD.hi + 1}
                   ELSE {0, EffLo(i, o, LimD) \div 2, EffLo(i, o, LimD) - 1, EffLo(i, o, LimD), EffHi(i, o, LimD) + 1,
                         4 * EffHi(i, o, LimD)}
 
-LimWires(dir, i, o) ==
+LimWires0(dir, i, o) ==
     LET comps == IF dir = "resp" THEN BOOLEAN ELSE {FALSE} IN
     {[enc |-> "cl", declared |-> n, actual |-> n, comp |-> c] : n \in LimSizes(i, o), c \in comps}
     \cup {[enc |-> "cl", declared |-> n, actual |-> n - 1, comp |-> c] : n \in {x \in LimSizes(i, o) : x > 0}, c \in comps}      \* lying length
     \cup {[enc |-> e, declared |-> -1, actual |-> m, comp |-> c] : e \in (IF dir = "req" THEN {"chunked"} ELSE {"chunked", "close"}),
                                                                   m \in LimSizes(i, o), c \in comps}
+(* ... each labelled with every media type class (ctype); the contract never looks at the label: the
+   limits hold for every content type *)
+LimWires(dir, i, o) == {[enc |-> w.enc, declared |-> w.declared, actual |-> w.actual, comp |-> w.comp, ctype |-> t] :
+                           w \in LimWires0(dir, i, o), t \in CTypeClasses}
 
 (* ---- implementation-shaped: Request.FetchPayload / Response.FetchPayload as a function ---- *)
 Min2(a, b) == IF a < b THEN a ELSE b
